@@ -1,7 +1,7 @@
 (* Props/C30.v — CWL tools receive exactly the arguments the reference runner passes.
    Only statements here; every proof is [exact <lemma of CwlCmd/Proofs.v or Shell/Proofs.v>] or a vm_compute witness.
    Models: CwlCmd/Model.v ([spec_*] = the CommandLineBinding rules as cwltool applies them, [sf_*] = StreamFlow). *)
-From Coq Require Import List NArith ZArith.
+From Coq Require Import List NArith ZArith Ascii.
 From SF Require Import Base.Str Shell.Model Shell.Proofs CwlCmd.Model CwlCmd.Proofs.
 Import ListNotations.
 Local Open Scope string_scope. Local Open Scope list_scope.
@@ -77,6 +77,25 @@ Theorem C30_array_quote_false_refuted :
   exists t j, job_typed t j /\ spec_line t j = "tool -z '= say hi'" /\ sf_line t j = "tool -z = say hi".
 Proof. exists qf_tool, qf_job. split; [repeat constructor; discriminate|]. vm_compute. split; reflexivity. Qed.
 
+(* Floats.  Both sides render a float from the job's spelling through decimal.Decimal ([dec_repr]; the repr of the
+   theorems above includes it, so C30_binding_equiv .. C30_argv_equiv cover float values and float arrays).  What the
+   rendering does to a spelling: without exponent and not below 1e-6 (in Decimal's sense) it is passed exactly as
+   spelled -- 0.00001, 2.50, 100.0 stay what they are (Python's repr(float) would give 1e-05, 2.5). *)
+Theorem C30_float_spelling_kept : forall neg ip fp,
+  fp <> "" ->
+  (ip = "0" \/ exists c r, ip = String c r /\ Ascii.eqb c "0" = false) ->
+  (-6 < Z.of_nat (String.length (dec_int ip fp)) - Z.of_nat (String.length fp))%Z ->
+  dec_repr neg ip fp None = (if neg then "-" else "") ^^ ip ^^ "." ^^ fp.
+Proof. exact dec_repr_plain. Qed.
+(* exponent spellings and values below 1e-6: instances (the general rule is dec_repr itself, checked against both
+   runners by the correspondence) *)
+Example C30_float_examples :
+  dec_repr false "0" "00001" None = "0.00001" /\ dec_repr false "2" "50" None = "2.50" /\
+  dec_repr false "1" "" (Some 3%Z) = "1000" /\ dec_repr false "1" "5" (Some (-3)%Z) = "0.0015" /\
+  dec_repr false "1" "50" (Some 1%Z) = "15.0" /\ dec_repr true "0" "0000001" None = "-0" /\
+  dec_repr false "1" "" (Some (-7)%Z) = "0" /\ dec_repr false "0" "" (Some 3%Z) = "0".
+Proof. vm_compute. repeat split; reflexivity. Qed.
+
 (* non-vacuity *)
 Definition ex_tool : tool :=
   mkT true ["python"; "dump tool.py"]
@@ -108,5 +127,6 @@ Print Assumptions C30_argv_equiv_noshell.
 Print Assumptions C30_quote.
 Print Assumptions C30_env_redirections.
 Print Assumptions C30_array_quote_false_refuted.
+Print Assumptions C30_float_spelling_kept.
 Print Assumptions C30_stream_targets.
 Print Assumptions C30_stderr_unset_not_redirected.
